@@ -18,12 +18,19 @@ Two explorations on the real implementation:
       normals_nodal  mesh.Get_normals(): unit vectors, on the outward side of every adjacent boundary element of a group
       surface_normals (planar 2D mesh moved in 3D) normals of the surface elements: unit, orthogonal to the moved plane,
                      the same sign on all elements and Gauss points
-(2) kind="locate"  (E1).  element type x small template mesh (affine cells, and general non-parallelogram straight-sided cells)
-    x placement {identity, in-plane/generic rotation, out-of-plane embedding (2D), reflection} x batch mode.  For every element
-    the images of a reference lattice (interior points, points on edges, on faces, the nodes) are the query points, given to
-    mesh.Evaluate_dofsValues_at_coordinates in batches of 1, 2, 3, 5, all points of the element, all points of the mesh, and
-    all points of the element with the `elements=[e]` hint; the nodal field holds every monomial of degree <= p at once
-    (dof_n = number of monomials); the returned values must equal the monomials at the query points (1e-9).
+(2) kind="locate"  (E1).  element type x small template mesh x placement {identity, in-plane/generic rotation, out-of-plane
+    embedding (2D), reflection} x batch mode.  Cell shapes: affine; general straight-sided (a displaced vertex: non-parallelogram
+    quadrangles, unequal triangles/tetrahedra); 3D frustum cells (non-affine, planar faces); 3D warped cells (trilinear, non-planar
+    faces).  For every element the images of a reference lattice (interior points, points on edges, on faces, the nodes) are the
+    query points, given to mesh.Evaluate_dofsValues_at_coordinates in batches of 1, 2, 3, 5, all points of the element, all
+    points of the mesh, and all points of the element with the `elements=[e]` hint; the nodal field holds every monomial of
+    degree <= p at once (dof_n = number of monomials); the returned values must equal the monomials at the query points
+    (1e-9; 1e-7 where the library inverts the element map iteratively).  A returned row of exact zeros (the constant monomial
+    included) is reported as `not_located`, any other deviation as `wrong_value`, an exception as `evaluate_raises`.
+
+Violation keys: motion checks {check, dom, src, elemType, poly, dim, hist (prefix reached), mirrored (odd number of reflections),
+inward (which boundary faces carry inward normals: none/all/bottom/all_but_bottom/mixed/invalid; boundary checks only)};
+locate checks {check, elemType, dim, k, shape, map, batch, loc (class of the failing query points)}.
 """
 from __future__ import annotations
 
@@ -86,7 +93,7 @@ def _locate_meshes(tier):
         elif t == "HEXA":
             variants = [("affine", 1), ("affine", [2, 1, 1]), ("frustum", [2, 1, 1]), ("warped", 1)]
             if tier == "thorough":
-                variants += [("frustum", 2), ("warped", 2)]
+                variants += [("frustum", [2, 2, 1]), ("warped", 2)]
         else:
             variants = [("affine", 1), ("frustum", 1)]
         for shape, k in variants:
